@@ -12,6 +12,7 @@
 //   persist_harness f5
 //       the two-insert scenario of DESIGN.md F5 on the real TranspositionTable (API level).
 #include <cassert>
+#include <unistd.h>
 #include <cstdio>
 #include <cstdlib>
 #include <cstring>
@@ -236,6 +237,20 @@ static int ops() {
             if (mode == "stop") {
                 std::this_thread::sleep_for(std::chrono::milliseconds(wait));
                 p.cmd("stop");
+            } else if (mode == "tbstop") {
+                // `go infinite` on a root that gets an on-demand tablebase: the stop must not depend
+                // on the wall clock (an early stop aborts the generation, F4): wait until the
+                // tablebase is installed (updateTB shrinks usedSize as its last action)
+                auto t0 = std::chrono::steady_clock::now();
+                while (p.tt().usedSize >= p.tt().tableSize) {
+                    std::this_thread::sleep_for(std::chrono::milliseconds(1));
+                    if (std::chrono::steady_clock::now() - t0 > std::chrono::seconds(wait)) {
+                        std::cerr << "TIMEOUT: tablebase not generated within " << wait << " s: " << line << std::endl;
+                        std::cout.flush();
+                        _exit(4);
+                    }
+                }
+                p.cmd("stop");
             } else {
                 p.uci.engineThread.waitStop();
             }
@@ -286,13 +301,27 @@ static int ops() {
             Position pos = TextIO::readFEN(trim(rest.substr(rest.find('|') + 1)));
             RelaxedShared<S64> mt; mt = (S64)maxT;
             p.tt().updateTB(pos, mt);
-        } else if (k == "UPDTBA") {         // aborted generation: <kind> | fen   (maxTimeMillis set to 0 after 2 ms)
+        } else if (k == "UPDTBA") {         // aborted generation: <kind> | fen ; no tablebase resident before
             std::string rest; std::getline(is, rest);
             Position pos = TextIO::readFEN(trim(rest.substr(rest.find('|') + 1)));
-            RelaxedShared<S64> mt; mt = (S64)-1;
-            std::thread th([&mt]() { std::this_thread::sleep_for(std::chrono::milliseconds(2)); mt = (S64)0; });
-            p.tt().updateTB(pos, mt);
-            th.join();
+            // the abort must not depend on the wall clock: a helper sets maxTimeMillis to 0 as soon as
+            // the generator object exists; generate() then returns false at the latest at the first
+            // round of its third phase ("Cancelled by UCI stop command").  Should the helper be
+            // descheduled for the whole generation, clear and try again.
+            for (int attempt = 0; attempt < 20; attempt++) {
+                RelaxedShared<S64> mt; mt = (S64)-1;
+                std::atomic<bool> done(false);
+                TranspositionTable* tp = &p.tt();
+                std::thread th([&mt, &done, tp]() {
+                    while (!done.load() && !tp->tbGen) std::this_thread::yield();
+                    mt = (S64)0;
+                });
+                bool ok = p.tt().updateTB(pos, mt);
+                done = true;
+                th.join();
+                if (!ok) break;
+                p.tt().clear();
+            }
         } else if (k == "DUMP") {
             dumpFrame(p, std::cout);
             dumpContent(p, std::cout);
@@ -336,11 +365,20 @@ static int ops() {
             {
                 p.cmd("setoption name Hash value 16"); p.ready();
                 Position kqk = TextIO::readFEN("8/8/8/4k3/8/8/3QK3/8 w - - 0 1");
-                RelaxedShared<S64> mt; mt = (S64)-1;
-                std::thread th([&mt]() { std::this_thread::sleep_for(std::chrono::milliseconds(2)); mt = (S64)0; });
-                bool ok = p.tt().updateTB(kqk, mt);
-                th.join();
-                if (!ok) t = p.tt().tbGen ? 0 : 1;
+                for (int attempt = 0; attempt < 20 && t < 0; attempt++) {
+                    RelaxedShared<S64> mt; mt = (S64)-1;
+                    std::atomic<bool> done(false);
+                    TranspositionTable* tp = &p.tt();
+                    std::thread th([&mt, &done, tp]() {
+                        while (!done.load() && !tp->tbGen) std::this_thread::yield();
+                        mt = (S64)0;
+                    });
+                    bool ok = p.tt().updateTB(kqk, mt);
+                    done = true;
+                    th.join();
+                    if (!ok) t = p.tt().tbGen ? 0 : 1;
+                    else p.tt().clear();
+                }
             }
             std::cout << "V " << g << ' ' << e << ' ' << kk << ' ' << t << " evals=" << a << ',' << b << ',' << c << '\n';
             resetAll(p);
